@@ -16,3 +16,4 @@ def run(chk):
     n = core_rules.defer_rules(chk, "C08")
     chk.floor_count("C01.R6:deferred-update call sites", n, 7)
     backtest_rules.run_loop(chk, "C08")
+    core_rules.refresh_before_trade(chk, "C08")
